@@ -136,7 +136,9 @@ func hoRun(in []byte) (interface{}, error) {
 		want := append(append([]byte{}, rdbBytes...), stream...)
 		var got []byte
 		readAll := func(r io.Reader, need int) {
-			deadline := time.Now().Add(hoBudget(c)) // generous and proportional to the volume: a slow machine must not look like lost bytes
+			// the budget is a STALL budget, renewed by every byte that arrives: a slow machine (or byte-sized reads of a large
+			// volume) must not look like lost bytes; bytes the tool never delivers still end the wait
+			deadline := time.Now().Add(hoBudget(c))
 			buf := make([]byte, 1<<16)
 			type res struct {
 				n   int
@@ -147,6 +149,10 @@ func hoRun(in []byte) (interface{}, error) {
 				if max <= 0 {
 					max = 4096
 				}
+				// tiny reads matter at the start and around the RDB / stream boundary; far from both, a large volume is read in bigger pieces
+				if pos := len(got); max < 4096 && pos > 1<<16 && (pos < c.N-(1<<16) || pos > c.N+(1<<16)) {
+					max = 1 << 16
+				}
 				k := 1 + rnd.Intn(max)
 				ch := make(chan res, 1)
 				go func() { n, err := r.Read(buf[:k]); ch <- res{n, err} }()
@@ -155,6 +161,9 @@ func hoRun(in []byte) (interface{}, error) {
 					got = append(got, buf[:x.n]...)
 					if x.err != nil {
 						return
+					}
+					if x.n > 0 {
+						deadline = time.Now().Add(hoBudget(c))
 					}
 				case <-time.After(time.Until(deadline)):
 					return
